@@ -71,7 +71,8 @@ def strategy(tier):
         st.tuples(st.just("query"), query),
         st.tuples(st.just("query"), query),
     )
-    return st.lists(call, min_size=1, max_size=14 if tier == "quick" else 40)
+    restore = st.tuples(st.just("restore"))
+    return st.lists(st.one_of([call] * 7 + [restore]), min_size=1, max_size=14 if tier == "quick" else 40)
 
 
 def _prefixes(fog):
@@ -149,6 +150,9 @@ def _queries(fog, model, q, info):
         expect("FullDirectionalVisibility-iff-nothing-right", isinstance(r, Raised)
                and isinstance(r.exc, FullDirectionalVisibility),
                f"nearest_right({q}) gave {r!r} although nothing lies to the right")
+        # ... and it must not be mistaken for "nothing is unexplored" by `except PerfectVisibility`
+        expect("PerfectVisibility-iff-empty", not isinstance(r.exc, PerfectVisibility),
+               f"nearest_right({q}) raised {type(r.exc).__name__}, which is a PerfectVisibility, on a non-empty fog")
         info.label("full-directional-visibility")
 
 
@@ -163,6 +167,12 @@ def run_case(case):
         kind = call[0]
         members = sorted(model)
         before = _check_fog(fog, model, "before the call")
+        if kind == "restore":
+            # go on with a fog restored from its serialisation (a checkpointed walk)
+            fog = impl("deserialize", HexaryTrieFog.deserialize, before)
+            info.label("continued-from-deserialised-fog")
+            _check_fog(fog, model, "after restoring from the serialisation")
+            continue
         if kind == "explore":
             p = _resolve_sel(call[1], members)
             segs = [tuple(s) for s in call[2]]
